@@ -11,7 +11,7 @@ STABLE = set(BASE["stable_pass"])
 
 
 def sh(cmd, cwd=None, timeout=1800):
-    return subprocess.run(cmd, shell=True, cwd=cwd, capture_output=True, text=True, timeout=timeout)
+    return subprocess.run(cmd, shell=True, cwd=cwd, capture_output=True, text=True, errors="replace", timeout=timeout)
 
 
 def confirm(pid, k):
